@@ -223,7 +223,11 @@ class ExprMixin:
         sorts = flat_sorts(elem)
         arrs = [z3.K(z3.IntSort(), default_term(s)) if s in (z3.IntSort(), z3.BoolSort(), z3.StringSort()) else self.fresh_const("arr0", z3.ArraySort(z3.IntSort(), s)) for s in sorts]
         for i, it in enumerate(l.items):
-            for j, t in enumerate(pack(it, elem)):
+            try:
+                terms = pack(it, elem)
+            except AssertionError:
+                raise OutOfSubset(f"list item {it!r} does not have the declared element type {elem}")
+            for j, t in enumerate(terms):
                 arrs[j] = z3.Store(arrs[j], i, t)
         return VSeq(elem, arrs, z3.IntVal(len(l.items)), l.mutable)
 
@@ -741,12 +745,13 @@ class ExprMixin:
 
     def ev_Call(self, n, env):
         fn = self.ev(n.func, env)
-        if isinstance(fn, VRef) and fn.sort == "Opaque":
+        if isinstance(fn, VRef) and fn.sort in ("Opaque", "Emitter"):
+            vals = []
             for a in n.args:
-                self.ev(a.value if isinstance(a, ast.Starred) else a, env)
+                vals.append(self.ev(a.value if isinstance(a, ast.Starred) else a, env))
             for k in n.keywords:
-                self.ev(k.value, env)
-            return self.call(fn, [], {}, n)
+                vals.append(self.ev(k.value, env))
+            return self.call(fn, vals, {}, n)
         args, kwargs = [], {}
         for a in n.args:
             if isinstance(a, ast.Starred):
@@ -875,4 +880,6 @@ class ExprMixin:
         h = self.world.iter_hook(self, it)
         if h is not None:
             return h
+        if isinstance(it, (VNone, VInt, VBool, VReal)):
+            raise PyRaise("TypeError", "object is not iterable")
         raise OutOfSubset(f"iteration over {it!r}")
